@@ -167,21 +167,49 @@ func runNoSpace(id int, sc scenario, variant int, base string) (res result) {
 	})
 	defer verif.SetWriteFault(nil)
 	var wErr error
-	switch (variant / 2) % 3 {
-	case 0:
-		wErr = db.SetReader(ctx, "key", bytes.NewReader(src))
-	case 1:
-		wErr = db.Set(ctx, "key", src)
-	default:
-		f, err := db.Create(ctx, "key")
-		if err != nil {
-			wErr = err
-		} else {
-			_, w1 := f.Write(src[:len(src)/2])
-			_, w2 := f.Write(src[len(src)/2:])
-			cErr := f.Close()
-			wErr = errors.Join(w1, w2, cErr)
+	path := (variant / 2) % 3
+	if os.Getenv("VERIF_FAULTS_BIGCREATE") != "" {
+		// C12: a writer that is megabytes ahead of a storing side that fails: Write and Close must still return
+		path = 2
+		src = append(src, pattern(3<<20+variant%1000, byte(id))...)
+	}
+	done := make(chan struct{})
+	go func() {
+		defer close(done)
+		switch path {
+		case 0:
+			wErr = db.SetReader(ctx, "key", bytes.NewReader(src))
+		case 1:
+			wErr = db.Set(ctx, "key", src)
+		default:
+			f, err := db.Create(ctx, "key")
+			if err != nil {
+				wErr = err
+			} else {
+				var ws []error
+				for off := 0; off < len(src); off += 1 << 19 {
+					end := min(off+1<<19, len(src))
+					if off == 0 {
+						end = min(len(src)/2, 1<<19)
+					}
+					_, wE := f.Write(src[off:end])
+					ws = append(ws, wE)
+					if off == 0 && end < len(src) && end < 1<<19 {
+						_, wE = f.Write(src[end:min(1<<19, len(src))])
+						ws = append(ws, wE)
+					}
+				}
+				ws = append(ws, f.Close())
+				wErr = errors.Join(ws...)
+			}
 		}
+	}()
+	select {
+	case <-done:
+	case <-time.After(45 * time.Second):
+		res.Status, res.Owner = "violation", "C12"
+		res.Mismatch = &mismatch{Kind: "hang", Detail: fmt.Sprintf("a write of %d bytes whose storing side ran out of space has not returned after 45 s (roots free ranks %v, faults %v)", len(src), sc.Free, sc.Fault)}
+		return res
 	}
 	mu.Lock()
 	active = false
